@@ -661,6 +661,52 @@ def directed():
     return out
 
 
+# ----------------------------------------------------------------------------- anchored-code coverage
+
+ANCHORS = [('util.py', None, 'checkSource'), ('util.py', None, 'parseUIntArray'), ('source.py', 'FloatSource', '__init__'),
+           ('source.py', 'FloatSource', 'load'), ('primitive.py', 'Primitive', '_getInputsFromList'),
+           ('triangleset.py', 'TriangleSet', '__init__'), ('lineset.py', 'LineSet', '__init__'),
+           ('polylist.py', 'Polylist', '__init__'), ('polygons.py', 'Polygons', '__init__')]
+
+
+def anchor_coverage(cases):
+    """line coverage of the anchored functions while `cases` run on the real code (measured, not assumed)"""
+    import ast
+    import os
+    try:
+        import coverage
+    except ImportError:
+        return {'unavailable': 'coverage module not importable'}
+    from vlib import core
+    base = os.path.join(os.path.realpath(core.REPO), 'collada')
+    files = sorted(set(os.path.join(base, f) for f, _, _ in ANCHORS))
+    cov = coverage.Coverage(data_file=None, include=files)
+    cov.start()
+    try:
+        for c in cases:
+            run_impl(c)
+    finally:
+        cov.stop()
+    out = {}
+    for fn, cls, func in ANCHORS:
+        path = os.path.join(base, fn)
+        try:
+            tree = ast.parse(open(path).read())
+            scope = tree.body
+            if cls:
+                scope = next(n for n in tree.body if isinstance(n, ast.ClassDef) and n.name == cls).body
+            node = next(n for n in scope if isinstance(n, ast.FunctionDef) and n.name == func)
+            _, statements, _, missing, _ = cov.analysis2(path)
+            span = set(range(node.body[0].lineno, node.end_lineno + 1))
+            st = [l for l in statements if l in span]
+            miss = [l for l in missing if l in span]
+            out['%s:%s' % (fn, (cls + '.' if cls else '') + func)] = '%d/%d lines%s' % (
+                len(st) - len(miss), len(st), (' missing ' + ','.join(map(str, miss))) if miss else '')
+        except Exception as e:   # noqa  (a renamed function is not an alarm)
+            out['%s:%s' % (fn, func)] = 'not measured: %s' % type(e).__name__
+    return out
+
+
 # ----------------------------------------------------------------------------- check
 
 def run(ctx):
@@ -678,6 +724,7 @@ def run(ctx):
         c, mode = gen_case(ctx.rng)
         cases.append((c, mode))
     lines = [line_of(c) for c, _ in cases]
+    ctx.notes['anchor_coverage'] = anchor_coverage([c for c, _ in cases[:2500]])
     model = ctx.driver('C09', lines) if ctx.lean_ok else None
     reported = set()
     corr = []     # correspondence-only deviations are listed after the failing inputs
